@@ -9,6 +9,9 @@ grammar; the SGR state around the painted text is decoded with the independent t
 (vlib/termmodel.py) and compared with an independent reading of the style string (written from
 git-config(1) "color" + delta's documented extras); the value printed by --show-config is fed
 back and must render identically; a third colour must be the fatal error.
+Text drawn under a decoration (src/handlers/draw.rs): `decorated_text_oracle` = every option whose text a drawing function
+writes x every decoration kind x every attribute, and the correspondence `draw.header` (real binary vs the Lean model
+style parser -> get_draw_function -> Draw.draw, run through DeltaModel/DrawTextRun.lean).
 """
 import itertools
 import re
@@ -1323,11 +1326,266 @@ def given_style_oracle(ctx, rep):
                       dict(replay, option=o, reported=shown))
 
 
+# --------------------------------------------------------------------------- text drawn under a decoration
+
+# the decoration kinds of a *-decoration-style (src/handlers/draw.rs: one drawing function each; `box ol` and
+# `box ul ol` fall back to the plain box); None = the option is not given (delta's default decoration)
+DECO_KINDS = [("default", None), ("none", "none"), ("ul", "ul"), ("ol", "ol"), ("ul-ol", "ul ol"), ("box", "box"),
+              ("box-ul", "box ul"), ("box-ol", "box ol"), ("box-ul-ol", "box ul ol")]
+DECO_PREFIXES = ["", "blue ", "bold yellow ", "#405060 ", "magenta italic ", "bold "]
+DECO_TEXT_COLOURS = ["", "yellow", "214 17", "#102030", "normal 52", "bright-cyan", "red #f0e0d0"]
+ALL_DECO_OPTS = ["commit-decoration-style", "file-decoration-style", "hunk-header-decoration-style"]
+RULECH = BOXCH + "┴┻"
+
+
+def _row_cells(prefix, avoid=()):
+    """Cells of `prefix` in the first row that starts with it (and mentions none of `avoid`)."""
+    def f(dec):
+        for r in dec.rows:
+            t = r.text()
+            if t.startswith(prefix) and not any(x in t for x in avoid):
+                return r.cells[:len(prefix)]
+        return None
+    return f
+
+
+def _upto_paren(prefix):
+    """Cells of `prefix … )` in the first row that starts with `prefix` (a file header with its mode addendum)."""
+    def f(dec):
+        for r in dec.rows:
+            t = r.text()
+            if t.startswith(prefix) and ")" in t:
+                return r.cells[:t.index(")") + 1]
+        return None
+    return f
+
+
+DIFF_MODE = (b"diff --git a/fmode.zzz b/fmode.zzz\nold mode 100644\nnew mode 100755\nindex 1111111..2222222\n"
+             b"--- a/fmode.zzz\n+++ b/fmode.zzz\n@@ -1,2 +1,1 @@ fragq\n zeroq\n-minusq\n")
+
+
+def decorated_elements():
+    """Every style option whose text is written by a drawing function of draw.rs (directly, or - hunk-header and grep
+    header lines - painted first and then handed to the drawing function), with the decoration option that selects
+    the drawing function: (label, text option, decoration option, stdin, env, args without that decoration option,
+    finder of the text cells, suffix appended to the style value, model request (text, addendum, pads) | None)."""
+    def diff_args(deco_opt, extra=()):
+        return [a for a in BASE_ARGS if not a.startswith("--" + deco_opt + "=")] + list(extra)
+    hh = "--hunk-header-style=normal file line-number"
+    g_args = ["--no-gitconfig", "--paging=never", "--syntax-theme=none", "--width=60"]
+    m_args = g_args + ["--%s=none" % o for o in ALL_DECO_OPTS]
+    ours, theirs = "merge-conflict-ours-diff-header", "merge-conflict-theirs-diff-header"
+    els = [
+        ("file-style", "file-style", "file-decoration-style", "DIFF", {}, diff_args("file-decoration-style"),
+         lambda dec: find_cells(dec, "file-style"), "", ("fileq.zzz", "", 1)),
+        ("file-style+mode", "file-style", "file-decoration-style", "DIFF_MODE", {}, diff_args("file-decoration-style"),
+         _upto_paren("fmode.zzz"), "", ("fmode.zzz", "mode +x", 1)),
+        ("commit-style", "commit-style", "commit-decoration-style", "DIFF", {}, diff_args("commit-decoration-style"),
+         lambda dec: find_cells(dec, "commit-style"), "", (PAINTED["commit-style"], "", 1)),
+        ("hunk-header-style", "hunk-header-style", "hunk-header-decoration-style", "DIFF", {}, diff_args("hunk-header-decoration-style"),
+         lambda dec: find_cells(dec, "hunk-header-style"), " file line-number", None),
+        ("hunk-header-file-style", "hunk-header-file-style", "hunk-header-decoration-style", "DIFF", {},
+         diff_args("hunk-header-decoration-style", [hh]), lambda dec: find_cells(dec, "hunk-header-file-style"), "", None),
+        ("hunk-header-line-number-style", "hunk-header-line-number-style", "hunk-header-decoration-style", "DIFF", {},
+         diff_args("hunk-header-decoration-style", [hh]), lambda dec: find_cells(dec, "hunk-header-line-number-style"), "", None),
+        (ours + "-style", ours + "-style", ours + "-decoration-style", "MERGE_DIFF", {},
+         m_args + ["--%s-decoration-style=none" % theirs], _text_cells("HEAD"), "", ("HEAD", "", 0)),
+        (theirs + "-style", theirs + "-style", theirs + "-decoration-style", "MERGE_DIFF", {},
+         m_args + ["--%s-decoration-style=none" % ours], _text_cells("branch"), "", ("branch", "", 0)),
+        ("grep-file-style", "grep-file-style", "grep-header-decoration-style", "RG_JSON", {"DELTA_VERIF_FORCE_GUESS": "rg wordq"}, g_args,
+         _row_cells("src/a.rs", avoid=("wordq",)), "", None),
+        ("grep-header-file-style", "grep-header-file-style", "grep-header-decoration-style", "GREP_P",
+         {"DELTA_VERIF_FORCE_GUESS": "git grep -n -p matchq"},
+         g_args + ["--grep-output-type=classic", "--hunk-header-style=file line-number"],
+         _text_cells("src/a.rs", skip_rows_with=("matchq",)), "", None),
+    ]
+    return els
+
+
+DECO_STDIN = {"DIFF": DIFF, "DIFF_MODE": DIFF_MODE, "MERGE_DIFF": MERGE_DIFF, "RG_JSON": RG_JSON,
+              "GREP_P": b"src/a.rs=10=fn headq() {\nsrc/a.rs:12:let matchq = 1;\n"}
+
+
+def _deco_gitconfig_home(opt, style, deco_opt, deco):
+    def q(v):                                  # `#` starts a comment in a git config file unless quoted
+        return '"' + v.replace("\\", "\\\\").replace('"', '\\"') + '"'
+    body = "[delta]\n    %s = %s\n" % (opt, q(style)) + ("    %s = %s\n" % (deco_opt, q(deco)) if deco is not None else "")
+    import hashlib
+    return _home_with_gitconfig("deco-" + hashlib.sha1(body.encode()).hexdigest()[:12], body), body
+
+
+def decorated_text_oracle(ctx, rep):
+    """The text of a decorated element carries exactly the colours and attributes of its style string, whatever the
+    decoration: every option drawn through draw.rs x every decoration kind (none, ul, ol, ul ol, box, box ul, box ol,
+    box ul ol, and the option left at its default) x text styles with every single attribute, random attribute sets
+    and all eight attributes, with and without colours; given on the command line or in git config; fixed and variable
+    decoration width. The drawn rule / box (where the element is the only decorated one) must carry the decoration
+    style's own colours and attributes. Correspondence `draw.header`: for the elements whose text goes to the drawing
+    function unpainted (file header with and without a mode addendum, commit line, merge-conflict headers) the bytes
+    of the header lines are compared with the Lean model (style parser -> get_draw_function -> Draw.draw)."""
+    rng = ctx.rng
+    els = decorated_elements()
+    jobs = []
+    for el in els:
+        label, opt = el[0], el[1]
+        for kind, words in DECO_KINDS:
+            styles = []
+            for a in ATTR_WORDS:
+                c = rng.choice(DECO_TEXT_COLOURS)
+                styles.append((a + " " + c).strip() if rng.random() < 0.5 else (c + " " + a).strip())
+            for _ in range(ctx.n(2, 8)):
+                ws = rng.sample(ATTR_WORDS, rng.randint(2, 5)) + rng.choice(DECO_TEXT_COLOURS).split()
+                rng.shuffle(ws)
+                st = " ".join(ws)
+                if oracle_parse(st) == "error":
+                    st = " ".join(w for w in ws if w in ATTR_WORDS)
+                styles.append(st)
+            styles.append(" ".join(ATTR_WORDS) + " " + rng.choice(DECO_TEXT_COLOURS))
+            styles.append(rng.choice(DECO_TEXT_COLOURS) or "normal")          # colours only: nothing may be added
+            for k, st in enumerate(styles):
+                deco = None if words is None else (words if words == "none" else rng.choice(DECO_PREFIXES) + words)
+                src = "gitconfig" if k == len(styles) - 3 or (not ctx.quick() and rng.random() < 0.25) else "cli"
+                if rng.random() < 0.2:
+                    st = mess_case(rng, st)
+                jobs.append(dict(el=el, kind=kind, deco=deco, style=st.strip(), tc=rng.randint(0, 1), src=src,
+                                 width=rng.choice(["60", "60", "variable", "23"])))
+    homes = {}
+    for j in jobs:
+        if j["src"] == "gitconfig":
+            el = j["el"]
+            j["home"] = _deco_gitconfig_home(el[1], j["style"] + el[7], el[2], j["deco"])
+
+    def argv(j):
+        label, opt, deco_opt, stdin, env, args, finder, suffix, mreq = j["el"]
+        a = [("--width=" + j["width"]) if x.startswith("--width=") else x for x in args]
+        a.append("--true-color=" + ("always" if j["tc"] else "never"))
+        e = dict(env)
+        if j["src"] == "cli":
+            a.append("--%s=%s" % (opt, j["style"] + suffix))
+            if j["deco"] is not None:
+                a.append("--%s=%s" % (deco_opt, j["deco"]))
+        else:
+            a = [x for x in a if x != "--no-gitconfig"]
+            e["HOME"] = j["home"][0]
+        return a, e
+
+    def run1(j):
+        a, e = argv(j)
+        return ctx.run_delta(a, DECO_STDIN[j["el"][3]], env=e)
+    results = parallel_map(run1, jobs)
+    names = {"bold": "bold", "faint": "dim", "italic": "italic", "underline": "ul", "blink": "blink",
+             "inverse": "reverse", "conceal": "hidden", "crossed": "strike"}
+
+    def shown(exp):
+        return T.style_key(*[x if not (isinstance(x, tuple) and x and x[0] == "quantised") else ("rgb",) + x[1] for x in exp[:2]], exp[2])
+    corr = []
+    for j, (rc, out, err) in zip(jobs, results):
+        label, opt, deco_opt, stdin, env, args, finder, suffix, mreq = j["el"]
+        kind, deco, st, tc, src = j["kind"], j["deco"], j["style"], j["tc"], j["src"]
+        a, e = argv(j)
+        rep.case(key=("decorated", label, kind, deco, st, tc, src, j["width"]), nontrivial=True,
+                 sample=dict(op="decorated", element=label, option=opt, style=st, decoration_option=deco_opt, decoration=deco,
+                             source=src, width=j["width"], rc=rc))
+        rep.count("decorated:%s:%s" % (label, kind))
+        rep.count("decorated:source=" + src)
+        replay = dict(kind="decorated", element=label, option=opt, style=st + suffix, decoration_option=deco_opt, decoration=deco,
+                      decoration_kind=kind, args=a, env=e, stdin=stdin, true_color=tc, source=src,
+                      gitconfig=j["home"][1] if src == "gitconfig" else None)
+        sig_tail = "%s:deco=%s" % (label, kind)
+        if rc != 0:
+            _viol(rep, "decorated:valid-style-rejected:" + sig_tail, "delta fails on a style / decoration style of the grammar",
+                  dict(replay, rc=rc, stderr=err.decode("utf-8", "replace")[-300:]))
+            continue
+        exp = expected_style(st, tc, {}, opt)
+        if exp is None:
+            continue
+        dec = T.decode(out)
+        cells = finder(dec)
+        if not cells:
+            _viol(rep, "decorated:element-missing:" + sig_tail, "the decorated text is not in the output", replay)
+            continue
+        bad = [c for c in cells if not style_matches(c, exp)]
+        if bad:
+            lost = sorted(names.get(x, x) for x in exp[2] - bad[0].attrs)
+            extra = sorted(names.get(x, x) for x in bad[0].attrs - exp[2])
+            how = ("-".join(lost) + "-lost" if lost else "") + ("+" if lost and extra else "") + \
+                  ("-".join(extra) + "-added" if extra else "") or "colours"
+            _viol(rep, "decorated:text-style-differs:%s:%s" % (sig_tail, how),
+                  "text drawn under a decoration does not carry exactly the colours/attributes of its style string",
+                  dict(replay, expected=shown(exp), got=[T.style_key(c.fg, c.bg, c.attrs) for c in bad[:3]], lost=lost, added=extra))
+        # the rule / box itself: the decoration style's own colours and attributes (words ul / ol / box select the shape)
+        if deco is not None and deco != "none" and stdin in ("DIFF", "DIFF_MODE"):
+            dw = " ".join(w for w in deco.split() if w not in ("ul", "ol", "box"))
+            dexp = expected_style(dw, tc, {}, deco_opt)
+            rule = [c for r in dec.rows for c in r.cells if c.ch in RULECH]
+            if dexp is not None and not rule:
+                _viol(rep, "decorated:decoration-missing:" + sig_tail, "no rule / box is drawn for a decoration style", replay)
+            elif dexp is not None:
+                badr = [c for c in rule if not style_matches(c, dexp)]
+                heavy = "bold" in dexp[2]
+                shape = [c for c in rule if (c.ch in "━┃┓┛┻") != heavy]
+                if badr or shape:
+                    _viol(rep, "decorated:decoration-style-differs:" + sig_tail,
+                          "the rule / box does not carry exactly the colours/attributes of the decoration style",
+                          dict(replay, expected=shown(dexp), got=[T.style_key(c.fg, c.bg, c.attrs) for c in (badr or shape)[:3]]))
+        if mreq is not None and src == "cli" and tc == 1 and deco is not None:
+            corr.append((j, a, out, replay))
+    _corr_draw_header(ctx, rep, corr)
+
+
+_ESC_SEQ = re.compile(r"\x1b\[[0-9;]*[A-Za-z]")
+
+
+def _corr_draw_header(ctx, rep, corr):
+    """Real binary vs Lean model (DeltaModel/DrawTextRun.lean, run with `lake env lean --run`: no lean_exe is registered
+    for it), byte for byte, on the lines the drawing function writes."""
+    import subprocess
+    from ..core import lake_build
+    if not corr:
+        return
+    ok, blog = lake_build(["DeltaModel.DrawTextRun"])
+    if not ok:
+        rep.corr_case("draw.header", False, dict(error="DeltaModel.DrawTextRun does not build", log=blog[-600:]))
+        return
+    reqs = []
+    for j, a, out, replay in corr:
+        text, addendum, pads = j["el"][8]
+        reqs.append(" ".join(["drawtext.header", "1", hx(j["style"] + j["el"][7]), hx(j["deco"]), hx(text), hx(addendum),
+                              "-" if j["width"] == "variable" else j["width"], str(pads)]))
+    p = subprocess.run(["lake", "env", "lean", "--run", "DeltaModel/DrawTextRun.lean"], cwd=LEAN, input="\n".join(reqs) + "\n",
+                       stdout=subprocess.PIPE, stderr=subprocess.STDOUT, text=True)
+    answers = [l for l in p.stdout.split("\n") if l.strip()]
+    if p.returncode != 0 or len(answers) != len(reqs):
+        rep.corr_case("draw.header", False, dict(error="model runner failed", log=p.stdout[-600:]))
+        return
+    for (j, a, out, replay), ans in zip(corr, answers):
+        text = j["el"][8][0]
+        lines = out.split(b"\n")
+        plain = [_ESC_SEQ.sub("", l.decode("utf-8", "replace")) for l in lines]
+        at = next((k for k, t in enumerate(plain) if t.startswith(text)), None)
+        f = ans.split(" ")
+        agree, model_lines, impl_lines = False, None, None
+        if f[0] == "ok" and at is not None:
+            idx = int(f[1])
+            model_lines = [unhx(x) for x in f[2:]]
+            n = len(model_lines) - 1
+            impl_lines = lines[at - idx:at - idx + n] if at >= idx else None
+            agree = model_lines[-1] == b"" and impl_lines == model_lines[:-1]
+        rep.case(key=("draw.header", j["el"][0], j["kind"], j["deco"], j["style"], j["width"]), nontrivial=True)
+        rep.corr_case("draw.header", agree,
+                      dict(replay, model=[m.decode("utf-8", "replace") for m in model_lines] if model_lines else ans[:200],
+                           impl=[m.decode("utf-8", "replace") for m in impl_lines] if impl_lines else None))
+
+
 def run(ctx, rep):
     rep.rule = ("style strings: exhaustive <=3 tokens over a 14-word vocabulary (attributes, omit/raw, named, bright, "
                 "number, #rrggbb, normal/auto/syntax), all 256 palette numbers as fg and bg, random #rrggbb, random "
                 "full-grammar strings with mixed case/quotes/separators, malformed words, decoration words; three "
-                "defaults x two colour depths; binary: random assignments to 16 style options on one diff. "
+                "defaults x two colour depths; binary: random assignments to 16 style options on one diff; decorated text: "
+                "10 elements drawn by draw.rs (file header with / without mode addendum, commit line, hunk-header code / file / "
+                "line number, merge-conflict ours / theirs headers, ripgrep and classic grep headers) x 9 decoration kinds "
+                "(option unset, none, ul, ol, ul ol, box, box ul, box ol, box ul ol; random colour / bold prefix) x every single "
+                "attribute + random attribute sets + all eight + colours only, command line / git config, fixed / variable width. "
                 "Non-trivial = at least one word; distinct by (op, default, depth, string)")
     rep.extra_trusted += ["ansi_colours::ansi256_from_rgb (oracle of the model; sanity-bounded against the xterm palette)",
                           "str::to_lowercase / split_whitespace (modelled for ASCII; generators are ASCII)",
@@ -1345,6 +1603,7 @@ def run(ctx, rep):
     depth_uniformity_oracle(ctx, rep)
     indirect_styles_oracle(ctx, rep)
     given_style_oracle(ctx, rep)
+    decorated_text_oracle(ctx, rep)
     show_config_round_trip(ctx, rep)
 
 
@@ -1355,6 +1614,15 @@ def replay(ctx, rep, obj):
         rc, out, err = ctx.run_delta(case["args"], DIFF)
         print("replay rc=%s" % rc)
         print(out.decode("utf-8", "replace"))
+    elif case.get("kind") == "decorated":
+        if case.get("gitconfig"):
+            _home_with_gitconfig(os.path.basename(case["env"]["HOME"])[len("home-c12-"):], case["gitconfig"])
+        rc, out, err = ctx.run_delta(case["args"], DECO_STDIN[case["stdin"]], env=case.get("env") or {})
+        print("replay rc=%s  (%s = %r, %s = %r, %s)" % (rc, case["option"], case["style"], case["decoration_option"],
+                                                        case["decoration"], case["source"]))
+        print(out.decode("utf-8", "replace"))
+        for r in T.decode(out).rows:
+            print(repr(r.text()), r.runs())
     elif case.get("kind") == "show-config":
         print("replay show-config:", case)
     elif case.get("kind") == "depth":
